@@ -19,6 +19,7 @@ package banner
 import (
 	"bytes"
 	"context"
+	"html"
 	"net/http"
 	"net/url"
 	"strings"
@@ -158,7 +159,8 @@ func (w *bannerResponseWriter) getBanner(favIconLink string) ([]byte, error) {
 		BannerHeight string
 		FavIconLink  string
 	}{
-		TargetURL:    w.targetURL.String(),
+		// The URL is placed inside of an HTML attribute, so it has to be escaped.
+		TargetURL:    html.EscapeString(w.targetURL.String()),
 		Banner:       w.bannerHTML,
 		BannerHeight: w.bannerHeight,
 		FavIconLink:  favIconLink,
